@@ -567,7 +567,7 @@ func c06Script(kind string, z int64) []c06Step {
 		}
 	case "accelerator":
 		return []c06Step{
-			{g.User1, types.AcceleratorContract, types.ZnnTokenStandard, new(big.Int).Set(constants.ProjectCreationAmount), definition.ABIAccelerator.PackMethodPanic(definition.CreateProjectMethodName, "Abandoned project", "d", "example.com", big.NewInt(100), big.NewInt(1000))},
+			{g.Pillar8, types.AcceleratorContract, types.ZnnTokenStandard, new(big.Int).Set(constants.ProjectCreationAmount), definition.ABIAccelerator.PackMethodPanic(definition.CreateProjectMethodName, "Abandoned project", "d", "example.com", big.NewInt(100), big.NewInt(1000))},
 		}
 	case "spork":
 		return []c06Step{
@@ -575,10 +575,10 @@ func c06Script(kind string, z int64) []c06Step {
 		}
 	case "token":
 		return []c06Step{
-			{g.User1, types.TokenContract, types.ZnnTokenStandard, big.NewInt(1 * z), definition.ABIToken.PackMethodPanic(definition.IssueMethodName, "Abandoned", "ABN", "example.com", big.NewInt(1000), big.NewInt(2000), uint8(2), true, true, false)},
+			{g.Pillar7, types.TokenContract, types.ZnnTokenStandard, big.NewInt(1 * z), definition.ABIToken.PackMethodPanic(definition.IssueMethodName, "Abandoned", "ABN", "example.com", big.NewInt(1000), big.NewInt(2000), uint8(2), true, true, false)},
 			{}, {},
-			{g.User1, types.PlasmaContract, types.QsrTokenStandard, big.NewInt(50 * z), definition.ABIPlasma.PackMethodPanic(definition.FuseMethodName, g.User6.Address)},
-			{g.User1, types.StakeContract, types.ZnnTokenStandard, big.NewInt(5 * z), definition.ABIStake.PackMethodPanic(definition.StakeMethodName, constants.StakeTimeMinSec)},
+			{g.Pillar7, types.PlasmaContract, types.QsrTokenStandard, big.NewInt(50 * z), definition.ABIPlasma.PackMethodPanic(definition.FuseMethodName, g.User6.Address)},
+			{g.Pillar7, types.StakeContract, types.ZnnTokenStandard, big.NewInt(5 * z), definition.ABIStake.PackMethodPanic(definition.StakeMethodName, constants.StakeTimeMinSec)},
 		}
 	}
 	return nil
